@@ -54,9 +54,29 @@ def gen_failing_nested(rng):
     return {"prog": "recv", "ops": ops, "activation_inv": "C13.activation", "exact_failures": True}
 
 
+def gen_inner_receiver(rng):
+    """The object-bound method is not the head of the call path: K.run2 > k1.meth > x fires for calls
+    of meth on k1 made under run2 (on whatever receiver run2 itself was called), and for nothing else."""
+    name, cls = rng.choice([("k1", "K"), ("k2", "K"), ("s1", "Sub")])
+    head = {"fn": "K.run2", "caps": [], "sibs": [], "recv_path": "K.run2"}
+    if rng.random() < 0.3:
+        head["caps"].append({"var": "y", "as": "y0"})
+    inner = {"fn": "K.meth", "caps": [], "sibs": [], "recv": name, "recv_cls": cls, "recv_param": "self",
+             "recv_path": f"{name}.meth"}
+    sel = {"levels": [head, inner], "focus": {"var": rng.choice(["x", "p"]), "as": "foc"}}
+    ops = [{"op": "mk", "id": "p0", "sels": [sel], "inv": "C13.receiver", "style": 0}, {"op": "enter", "id": "p0"}]
+    for _ in range(rng.randint(3, 8)):
+        who = rng.choice(["k1", "k2", "s1"])
+        ops.append({"op": "call", "fn": f"{who}.{rng.choice(['run2', 'run2', 'meth'])}", "nargs": 1, "tape": [], "faults": {}})
+    ops.append({"op": "exit", "id": "p0"})
+    return {"prog": "recv", "ops": ops, "activation_inv": "C13.activation"}
+
+
 def gen(rng, tier, quarantine=()):
     if "no-failing-subscriber" not in quarantine and rng.random() < 0.06:
         return gen_failing_nested(rng)
+    if "no-inner-receiver" not in quarantine and rng.random() < 0.06:
+        return gen_inner_receiver(rng)
     fams = [f for f in FAM if f"no:{f}" not in quarantine]
     if "no-unhashable" in quarantine:
         fams = [f for f in fams if f != "N.meth"]
